@@ -39,22 +39,23 @@ Ret(g) == /\ pc[g] = "ret" /\ pc' = [pc EXCEPT ![g] = "in"]
 Exit(g) == /\ pc[g] = "in" /\ pc' = [pc EXCEPT ![g] = "unl"]
            /\ c' = CNext2(c, Ev("exit", g), [ev |-> "rel_call", g |-> g, how |-> "unlock"])
            /\ UNCHANGED <<slot, sendq, left, seen>>
-(* <-m.lock *)
+(* <-m.lock : hands the slot to the first blocked sender, which may return before this caller does *)
 Recv(g) == /\ pc[g] = "unl" /\ slot = 1
-           /\ IF sendq = << >> THEN slot' = 0 /\ UNCHANGED sendq /\ pc' = [pc EXCEPT ![g] = "idle"]
+           /\ IF sendq = << >> THEN slot' = 0 /\ UNCHANGED <<sendq, seen>> /\ pc' = [pc EXCEPT ![g] = "released"]
               ELSE LET i == IF LIFO THEN Len(sendq) ELSE 1
                        w == sendq[i]
-                   IN /\ sendq' = SubSeq(sendq, 1, i - 1) \o SubSeq(sendq, i + 1, Len(sendq))
-                      /\ pc' = [pc EXCEPT ![g] = "idle", ![w] = "ret"] /\ UNCHANGED slot
-           /\ left' = [left EXCEPT ![g] = @ - 1] /\ seen' = seen \ {IF sendq = << >> THEN 0 ELSE sendq[IF LIFO THEN Len(sendq) ELSE 1]}
-           /\ c' = CNext(c, Ev("rel_ret", g))
+                   IN /\ sendq' = SubSeq(sendq, 1, i - 1) \o SubSeq(sendq, i + 1, Len(sendq)) /\ seen' = seen \ {w}
+                      /\ pc' = [pc EXCEPT ![g] = "released", ![w] = "ret"] /\ UNCHANGED slot
+           /\ UNCHANGED <<left, c>>
+RelRet(g) == /\ pc[g] = "released" /\ pc' = [pc EXCEPT ![g] = "idle"] /\ left' = [left EXCEPT ![g] = @ - 1]
+             /\ c' = CNext(c, Ev("rel_ret", g)) /\ UNCHANGED <<slot, sendq, seen>>
 (* end of run: whoever still waits will wait forever *)
 Dead(g) == pc[g] = "blocked" \/ (pc[g] = "unl" /\ slot = 0)
 Stuck == /\ \A g \in G : Dead(g) \/ (pc[g] = "idle" /\ left[g] = 0)
          /\ \E g \in G : Dead(g) /\ c' = CNext(c, Ev("stuck", g))
          /\ UNCHANGED <<slot, sendq, pc, left, seen>>
 
-Next == Stuck \/ Observe \/ \E g \in G : Call(g) \/ Send(g) \/ Ret(g) \/ Exit(g) \/ Recv(g)
+Next == Stuck \/ Observe \/ \E g \in G : Call(g) \/ Send(g) \/ Ret(g) \/ Exit(g) \/ Recv(g) \/ RelRet(g)
 Spec == Init /\ [][Next]_vars /\ WF_vars(Next)
 
 Contract == ~IsBad(c)
